@@ -444,6 +444,8 @@ for (_cls_path, _file), (_attrs, _caches) in _RESETS.items():
     for _a in _attrs:
         _k = _setters.make(f"Reset_{_cname}_{_a}", f"{_file}::{_cname}.{_a}.fset", _cls_path, _a, resets=_caches, write_through=False, props=("C17",))
         _k.__module__ = __name__
+        if (_cname, _a) == ("Grid2D", "dip"):
+            _k.coupled = ("_vertical",)  # documented coupling: a dip of 90 degrees is the format's 'vertical' flag
         globals()[_k.__name__] = _k
         RESET_CONTRACTS.append(_k)
 for _a, _c in (("cells", "_parts"), ("parts", "_cells")):
@@ -465,7 +467,7 @@ class CurvePartsCells(Contract):
     props = ("C17",)
     symbolic = False
     has_native = True
-    bounded_scope = "every part labelling of 2-6 vertices over labels {0,1,2} (incl. non-contiguous labels), and every removal of one segment from a 6-vertex line (exhaustive)"
+    bounded_scope = "every part labelling of 2-6 vertices over labels {0,1,2} (incl. non-contiguous labels), and every removal of one segment from a 6-vertex line; every removal of one or two vertices from three labelled curves of 5-7 vertices (exhaustive)"
 
     def native_cases(self, tier, rng):
         for n in range(2, 7 if tier == "thorough" else 6):
@@ -474,6 +476,12 @@ class CurvePartsCells(Contract):
         for n in (4, 6):
             for k in range(n - 1):
                 yield {"kind": "remove-cell", "n": n, "cell": k}
+        # vertices removed from a curve built from part labels (ends of parts included): the segments left join
+        # consecutive surviving vertices of one part only, and the labels agree with them
+        for parts in ([0, 0, 0, 1, 1, 1], [0, 0, 1, 1, 1, 2, 2], [0, 0, 0, 0, 0]):
+            for k in range(1, 3):
+                for gone in itertools.combinations(range(len(parts)), k):
+                    yield {"kind": "remove-vertices", "parts": parts, "gone": list(gone)}
 
     def native_check(self, case):
         from geoh5py.objects import Curve
@@ -514,6 +522,36 @@ class CurvePartsCells(Contract):
                         for b in used:
                             if (parts[a] == parts[b]) != (again[a] == again[b]):
                                 return f"part labels {again.tolist()} derived from the segments {cells.tolist()} of labelling {parts} disagree with connectivity"
+                return None
+            if case["kind"] == "remove-vertices":
+                parts, gone = case["parts"], case["gone"]
+                n = len(parts)
+                v = np.c_[np.arange(n, dtype=float), np.zeros(n), np.zeros(n)]
+                c = Curve.create(ws, vertices=v, parts=parts)
+                _ = c.cells
+                c.remove_vertices(gone)
+                keep = [i for i in range(n) if i not in gone]
+                xs = [float(x) for x in np.asarray(c.vertices)[:, 0]] if c.vertices is not None else []
+                if xs != [float(i) for i in keep]:
+                    return f"after removing vertices {gone} the vertices left are {xs} ({case})"
+                cells = np.asarray(c.cells).reshape(-1, 2) if c.cells is not None else np.zeros((0, 2), dtype=int)
+                if len(cells) and (cells.min() < 0 or cells.max() >= len(keep)):
+                    return f"after removing vertices {gone} a segment refers to a vertex that does not exist: {cells.tolist()} ({case})"
+                got = {tuple(sorted((keep[int(a)], keep[int(b)]))) for a, b in cells}
+                # a segment survives exactly when both its ends do (no segment is invented)
+                exp = set()
+                for lab in set(parts):
+                    idx = [i for i, q in enumerate(parts) if q == lab]
+                    exp |= {(a, b) for a, b in zip(idx[:-1], idx[1:]) if a not in gone and b not in gone}
+                if got != exp:
+                    return f"after removing vertices {gone} from a curve with parts {parts} the segments join original vertices {sorted(got)}, expected {sorted(exp)}"
+                comp = components(len(keep), cells)
+                labels = np.asarray(c.parts)
+                used = sorted({int(i) for cell in cells for i in cell})
+                for a in used:
+                    for b in used:
+                        if (comp[a] == comp[b]) != (labels[a] == labels[b]):
+                            return f"after removing vertices {gone}, part labels {labels.tolist()} disagree with the segments {cells.tolist()}"
                 return None
             n = case["n"]
             v = np.c_[np.arange(n, dtype=float), np.zeros(n), np.zeros(n)]
